@@ -497,6 +497,16 @@ func (fr *Frame) lookupName(name string, e *Env) (TV, bool) {
 	if domAlloc != nil {
 		anyAlloc = domAlloc
 	}
+	if anyAlloc != nil && anyAlloc.Parent() == fr.fn && immutableCapture(anyAlloc) {
+		if st := singleStore(anyAlloc); st != nil {
+			if v, done := fr.vals[st.Val]; done {
+				return TV{T: v, Ty: anyAlloc.Type().Underlying().(*types.Pointer).Elem()}, true
+			}
+			if _, isParam := st.Val.(*ssa.Parameter); isParam {
+				return TV{T: fr.val(st.Val), Ty: anyAlloc.Type().Underlying().(*types.Pointer).Elem()}, true
+			}
+		}
+	}
 	if anyAlloc != nil {
 		l := fr.locOf(anyAlloc)
 		ne := *fr
@@ -748,6 +758,9 @@ func (fr *Frame) capConst(a *ssa.Alloc) Term {
 	case "Slice":
 		c.assert("(or (= (sref " + n + ") null) (select " + al + " (sref " + n + ")))")
 	}
+	if storedClosure(a) {
+		c.assert("(not (= " + n + " null))")
+	}
 	top.capVals[a] = n
 	c.assumed["a captured variable stored once (in the block that declares it, before any closure captures it) and only read by closures keeps its value"] = true
 	return n
@@ -803,7 +816,9 @@ func immutableCapture1(a *ssa.Alloc) bool {
 	}
 	for _, mc := range mcs {
 		if mc.Block() == store.Block() {
-			if idx(mc) < idx(store) {
+			if idx(mc) < idx(store) && !onlyStoredBy(mc, store) {
+				// (a closure that captures the variable it is then stored in, `fn = func() {… fn …}`,
+				// cannot run before the store: the store is the only use of the closure value)
 				return false
 			}
 		} else if !store.Block().Dominates(mc.Block()) {
@@ -817,6 +832,46 @@ func immutableCapture1(a *ssa.Alloc) bool {
 		}
 	}
 	return true
+}
+
+// onlyStoredBy: the closure value flows nowhere but into the given store.
+func onlyStoredBy(mc *ssa.MakeClosure, st *ssa.Store) bool {
+	var ok func(v ssa.Value) bool
+	ok = func(v ssa.Value) bool {
+		if v.Referrers() == nil {
+			return false
+		}
+		for _, r := range *v.Referrers() {
+			switch x := r.(type) {
+			case *ssa.Store:
+				if x != st || x.Val != v {
+					return false
+				}
+			case *ssa.ChangeType:
+				if !ok(x) {
+					return false
+				}
+			case *ssa.DebugRef:
+			default:
+				return false
+			}
+		}
+		return true
+	}
+	return ok(mc)
+}
+
+func storedClosure(a *ssa.Alloc) bool {
+	st := singleStore(a)
+	if st == nil {
+		return false
+	}
+	v := st.Val
+	if ct, ok := v.(*ssa.ChangeType); ok {
+		v = ct.X
+	}
+	_, ok := v.(*ssa.MakeClosure)
+	return ok
 }
 
 func fvReadOnly(fv *ssa.FreeVar) bool {
